@@ -151,7 +151,8 @@ package corerad
 //@   ghost local awaiting Bool
 //@   ghost local started Bool
 //@   requires P0: ctx != nil && a.minDelayBetweenRAs > 0 && a.minDelayBetweenRAs <= secs(3600) && advOK(a) && ifiOK(a.cfg) && conn != nil
-//@   assigns ghost.now, ghost.done, ghost.scheduled, ghost.sgCtx
+//@   assigns ghost.now, ghost.done, ghost.scheduled, ghost.sgCtx, ghost.running, ghost.wgCount, ghost.wgWaited, ghost.lockDepth, new heap(bool)
+//@   ensures E8 [C08]: stopped && setHas(ghost.wgWaited, addr(workerWG))
 //@   at call time.Now() (t) when !ghost.started: ghost.lastFire = t ; ghost.started = true
 //@   at call time.Now() (t) when ghost.awaiting: ghost.trigger = t ; ghost.awaiting = false
 //@   loop 1 invariant M9: a != nil && advOK(a)
@@ -220,18 +221,51 @@ package corerad
 //@   ensures S1 [C07]: ghost.sends <= 1
 //@   opt safety [C10]
 
-// Scheduled transmit workers.
+// No worker outlives the scheduler (C08: nothing is transmitted after the final
+// RA). schedgroup.Wait does not join running tasks once its context is done, so
+// schedule tracks them itself: begin() admits a worker only while the scheduler
+// has not stopped and counts it in workerWG; the deferred stop closure sets
+// stopped and waits for the admitted ones. ghost.running counts admitted,
+// unfinished workers.
+//@ ghost var running Int
 //@ func (*Advertiser).schedule$1
-//@   opt capture CAP
-//@   requires CAP [C10]: ctx != nil && a != nil && advOK(a) && ifiOK(a.cfg) && conn != nil
-//@   opt cancelable [C10]
-//@   assigns everything
-//@   opt safety [C10]
+//@   assigns ghost.running, ghost.wgCount, ghost.lockDepth
+//@   ensures R1 [C08]: result == !stopped
+//@   ensures R2 [C08]: ghost.running == old(ghost.running) + b2i(result)
+//@   ensures R3 [C08]: lockGet(ghost.wgCount, addr(workerWG)) == old(lockGet(ghost.wgCount, addr(workerWG))) + b2i(result)
+//@   at call Add(wg, n): assert A1 [C08]: wg == addr(workerWG) && n == 1 && !stopped ; ghost.running = ghost.running + 1
+//@   opt safety [C08]
 //@ func (*Advertiser).schedule$2
+//@   assigns heap(bool) at addr(stopped), ghost.wgWaited, ghost.lockDepth
+//@   at call Wait(wg): assert W1 [C08]: wg == addr(workerWG) && stopped
+//@   ensures S1 [C08]: stopped && setHas(ghost.wgWaited, addr(workerWG))
+//@   opt safety [C08]
+
+// Scheduled transmit workers: a worker transmits only between begin() == true
+// and its deferred Done.
+//@ funcparam corerad.(*Advertiser).schedule$3.begin() (ok)
+//@   opt same corerad.(*Advertiser).schedule$1
+//@ funcparam corerad.(*Advertiser).schedule$4.begin() (ok)
+//@   opt same corerad.(*Advertiser).schedule$1
+//@ func (*Advertiser).schedule$3
+//@   ghost local began Bool
 //@   opt capture CAP
-//@   requires CAP [C10]: ctx != nil && a != nil && advOK(a) && ifiOK(a.cfg) && conn != nil
+//@   requires CAP [C10]: ctx != nil && a != nil && advOK(a) && ifiOK(a.cfg) && conn != nil && begin != nil
 //@   opt cancelable [C10]
 //@   assigns everything
+//@   at call begin() (ok): ghost.began = ok
+//@   at call sendWorker(sa, sc, sip): assert B1 [C08]: ghost.began
+//@   at call sync.Done(wg): assert D1 [C08]: ghost.began && wg == addr(workerWG) ; ghost.running = ghost.running - 1
+//@   opt safety [C10]
+//@ func (*Advertiser).schedule$4
+//@   ghost local began Bool
+//@   opt capture CAP
+//@   requires CAP [C10]: ctx != nil && a != nil && advOK(a) && ifiOK(a.cfg) && conn != nil && begin != nil
+//@   opt cancelable [C10]
+//@   assigns everything
+//@   at call begin() (ok): ghost.began = ok
+//@   at call sendWorker(sa, sc, sip): assert B1 [C08]: ghost.began
+//@   at call sync.Done(wg): assert D1 [C08]: ghost.began && wg == addr(workerWG) ; ghost.running = ghost.running - 1
 //@   opt safety [C10]
 
 // ---------------------------------------------------------------------------
